@@ -75,6 +75,10 @@ def view_history(rng, tier):
                 elif q < 0.24: c = max(1, n_ - o) + rng.randint(1, 2)   # crossing it
                 roff.append(o); rcnt.append(c)
             q = rng.random()
+            if rng.random() < 0.04 and roff:               # an offset / a count near the maximum of the index type: the sum wraps around
+                k_ = rng.randrange(len(roff))
+                if rng.random() < 0.6: roff[k_] = 2 ** 64 - rng.choice([1, 1, 2, 3])
+                else: rcnt[k_] = 2 ** 64 - rng.choice([1, 2])
             if q < 0.1: roff = []                          # offset omitted
             if q > 0.93: rcnt = []                         # count omitted: the whole window
             if q > 0.97: roff = roff + [0]                 # wrong rank
@@ -82,6 +86,7 @@ def view_history(rng, tier):
                 rcnt = rcnt[:-1] if len(rcnt) > 1 and rng.random() < 0.6 else rcnt + [1]
                 if rng.random() < 0.6: roff = []
             n_el = A.prod(rcnt) if rcnt else A.prod(wcnt)
+            if n_el > 4096: n_el = 4            # a request that cannot be served: the buffer handed in need not hold it
             if rng.random() < 0.2 and len(wcnt) == rank and all(x > 0 for x in wcnt):
                 # typed transfers of one value / of a vector the library sizes, through the window
                 lines.append(A.typed_op(rng, 'dv', dt, wcnt, val=(lambda: 'x' + ('w%d' % rng.randrange(1000)).encode().hex()) if dt == 'String' else None))
